@@ -4,7 +4,7 @@ from . import common as C
 from . import gen_text as G
 from . import pipeline as PL
 
-PROP_MODS = ["Oq3.Props.C01"]
+PROP_MODS = ["Oq3.Props.C01", "Oq3.Props.C01Safe"]
 
 
 def token_alphabet():
